@@ -540,7 +540,102 @@ func replayCase(c *Ctx) string {
 	return s
 }
 
+// c01MergeDriver: `git lfs merge-driver` run for real.  The three inputs are pointers to stored
+// objects, the merge program combines them, and --output names a file that already holds a pointer
+// (git passes the current version's file, %A): afterwards it must hold exactly the canonical pointer
+// of the merged content, and that content must be in local storage.
+func c01MergeDriver(c *Ctx, r *Rng) {
+	n := c.N(40, 600)
+	dir := filepath.Join(c.Work, "c01-merge")
+	if gitInit(dir) != nil {
+		return
+	}
+	env := []string{"PATH=" + filepath.Dir(c.Lfs) + ":" + os.Getenv("PATH"), "GIT_CONFIG_GLOBAL=" + filepath.Join(c.Work, "c01-merge.gitconfig")}
+	os.WriteFile(filepath.Join(c.Work, "c01-merge.gitconfig"), []byte("[user]\n\tname = v\n\temail = v@example.invalid\n"), 0o644)
+	var lines, impl, cases []string
+	for i := 0; i < n; i++ {
+		sizes := []int{1, 7, 60, 700, 5000, 123456}
+		var cont [3][]byte
+		var ptr [3][]byte
+		okc := true
+		for k := 0; k < 3; k++ {
+			cont[k] = r.Bytes(Pick(r, sizes))
+			out, code := runInStdin(dir, string(cont[k]), c.Lfs, "clean", "x.bin")
+			if code != 0 {
+				okc = false
+			}
+			ptr[k] = []byte(out)
+			os.WriteFile(filepath.Join(dir, []string{"O", "A", "B"}[k]+".ptr"), ptr[k], 0o644)
+		}
+		if !okc {
+			continue
+		}
+		prog := Pick(r, []string{"cp %B %D", "cp %O %D", "cat %A %B > %D", "cat %O %A %B > %D", "head -c 3 %B > %D", "cp %A %D"})
+		var merged []byte
+		switch prog {
+		case "cp %B %D":
+			merged = cont[2]
+		case "cp %O %D":
+			merged = cont[0]
+		case "cat %A %B > %D":
+			merged = append(append([]byte(nil), cont[1]...), cont[2]...)
+		case "cat %O %A %B > %D":
+			merged = append(append(append([]byte(nil), cont[0]...), cont[1]...), cont[2]...)
+		case "head -c 3 %B > %D":
+			merged = cont[2][:min(3, len(cont[2]))]
+		case "cp %A %D":
+			merged = cont[1]
+		}
+		outFile := "A.ptr" // git hands the driver the current version's file as %A and expects the result there
+		if r.Chance(25) {
+			outFile = "result.ptr"
+			os.Remove(filepath.Join(dir, outFile))
+			if r.Bool() {
+				os.WriteFile(filepath.Join(dir, outFile), []byte("stale content of an earlier merge, longer than any pointer ........................................................................................................................\n"), 0o644)
+			}
+		}
+		old, _ := os.ReadFile(filepath.Join(dir, outFile))
+		out, code := runIn(dir, env, c.Lfs, "merge-driver", "--ancestor", "O.ptr", "--current", "A.ptr", "--other", "B.ptr", "--output", outFile, "--program", prog)
+		got, _ := os.ReadFile(filepath.Join(dir, outFile))
+		want := canonicalPointer(sha(merged), int64(len(merged)))
+		enc := fmt.Sprintf("C01 mergedriver sizes=%d/%d/%d program=%q output=%s oldlen=%d", len(cont[0]), len(cont[1]), len(cont[2]), prog, outFile, len(old))
+		c.R.Eval(enc, len(old) != len(want))
+		c.R.Count("mergedriver")
+		if len(old) > len(want) {
+			c.R.Count("mergedriver.shorter-result")
+		}
+		if code != 0 {
+			c.R.Add(Finding{Kind: "oracle", What: "merge-driver failed on stored objects with a succeeding merge program", Case: enc, Impl: clip(out, 300)})
+			continue
+		}
+		if !bytes.Equal(got, want) {
+			c.R.Add(Finding{Kind: "oracle", What: "after merge-driver the --output file is not the canonical pointer of the merged content", Case: enc, Impl: fmt.Sprintf("got %q want %q", clip(string(got), 300), string(want))})
+		}
+		if b, err := os.ReadFile(filepath.Join(dir, ".git", "lfs", "objects", sha(merged)[0:2], sha(merged)[2:4], sha(merged))); err != nil || !bytes.Equal(b, merged) {
+			c.R.Add(Finding{Kind: "oracle", What: "after merge-driver the merged content is not in local storage under its SHA-256", Case: enc})
+		}
+		lines = append(lines, fmt.Sprintf("C01 mergeout %s %s", hx(old), hx(want)))
+		impl = append(impl, hx(got))
+		cases = append(cases, enc)
+	}
+	ans, err := c.Or.Ask(lines)
+	if err != nil {
+		c.R.Add(Finding{Kind: "diff", What: "oracle process failed: " + err.Error(), Broken: "corr.C01.mergedriver"})
+		return
+	}
+	for i := range lines {
+		if ans[i] != impl[i] {
+			c.R.Add(Finding{Kind: "diff", What: "merge-driver output file: model and implementation disagree", Case: cases[i], Impl: clip(impl[i], 400), Model: clip(ans[i], 400), Broken: "corr.C01.mergedriver"})
+		}
+	}
+}
+
 func init() {
 	campaigns["C08"] = func(c *Ctx) { filterCampaign(c, "C08") }
-	campaigns["C01"] = func(c *Ctx) { filterCampaign(c, "C01") }
+	campaigns["C01"] = func(c *Ctx) {
+		filterCampaign(c, "C01")
+		if c.Replay == "" {
+			c01MergeDriver(c, NewRng(c.Seed^0xC01D))
+		}
+	}
 }
